@@ -193,13 +193,14 @@ theorem mapM_lookup (top : String → Option StoreFile) (inputs : List String) (
 theorem validate_ok {fsys : FS} {inputs : List String} {fs : List (String × StoreFile)}
     (h : validate fsys inputs = .ok fs) :
     fsys.out = none ∧ (∀ p ∈ fs, fsys.top p.1 = some p.2) ∧ fs.map (·.1) = inputs ∧ fs ≠ [] ∧
-    (∀ p ∈ fs, ∀ q ∈ fs, p.2.fs = q.2.fs ∧ p.2.indexed = q.2.indexed) := by
+    (∀ p ∈ fs, ∀ q ∈ fs, p.2.fs = q.2.fs ∧ p.2.indexed = q.2.indexed) ∧ inputs.Nodup := by
   unfold validate at h
   cases hm : inputs.mapM (fun n => (fsys.top n).map (fun f => (n, f))) with
   | none => simp [hm] at h
   | some fs' =>
     simp only [hm] at h
-    split_ifs at h with hout
+    split_ifs at h with hdup hout
+    have hnd : inputs.Nodup := by simpa using hdup
     cases fs' with
     | nil => simp at h
     | cons p0 rest =>
@@ -208,7 +209,7 @@ theorem validate_ok {fsys : FS} {inputs : List String} {fs : List (String × Sto
       split_ifs at h with h1 h2
       cases h
       obtain ⟨ha, hb⟩ := mapM_lookup fsys.top inputs _ hm
-      refine ⟨by simpa using hout, ha, hb, by simp, ?_⟩
+      refine ⟨by simpa using hout, ha, hb, by simp, ?_, hnd⟩
       have hfs : ∀ p ∈ (n0, f0) :: rest, p.2.fs = f0.fs ∧ p.2.indexed = f0.indexed := by
         intro p hp
         constructor
